@@ -676,6 +676,19 @@ struct DurMon {
     if (!(al.cs == ref.cs) || al.offset != ref.offset)
       ctx.viol("C18", std::string("lookup-not-floor:") + nm, std::string(nm) + " count=" + S((i128)c) + " zone=" + zn);
     if (!(cctz::convert(tp, tz) == ref.cs)) ctx.viol("C18", std::string("convert-not-floor:") + nm, std::string(nm) + " count=" + S((i128)c));
+    if constexpr (P::num != 1 && P::den != 1) {
+      // a tick that is neither a whole number of seconds nor a unit fraction of one (3/2 s, 2/3 s, NTSC frames): outside
+      // the statement's panel as far as fractional digits go (the remainder is carried in ticks of D), but the whole
+      // second must still be the floor
+      std::string w = cctz::format("%s|%S|%E0S|%H:%M", tp, tz);
+      char hm[16];
+      snprintf(hm, sizeof hm, "%02d:%02d", ref.cs.hour(), ref.cs.minute());
+      std::string we = fm::dec(secs) + "|" + fm::d2(ref.cs.second()) + "|" + fm::d2(ref.cs.second()) + "|" + hm;
+      ctx.stat("C18.evaluations");
+      ctx.stat("C18.non_unit_fraction_tick_cases");
+      if (w != we) ctx.viol("C18", std::string("format-whole-second:") + nm, std::string(nm) + " count=" + S((i128)c) + " got '" + w + "' expected '" + we + "'");
+      return;
+    } else {
     i128 femto = rem * (i128)1000000000000000LL / den;  // truncated
     std::string s = cctz::format("%s %E15f %E3f %E*S|%E0S|%S|%E18f|%E16S|%E1f|%E*f", tp, tz);
     ctx.stat("C18.evaluations");
@@ -703,10 +716,11 @@ struct DurMon {
     if (!ok || (i128)back.time_since_epoch().count() != c2)
       ctx.viol("C18", std::string("parse-back-not-floor:") + nm,
                std::string(nm) + " count=" + S((i128)c) + " text='" + full + "' ok=" + std::to_string(ok) + " got=" + (ok ? S((i128)back.time_since_epoch().count()) : "-") + " expected=" + S(c2));
+    }  // supported tick
   }
   // whole seconds or coarser: floor and failure reporting at the representation's limits
   void parse_limits() {
-    if (P::den != 1) return;
+    if constexpr (P::den == 1) {
     i128 num = P::num;
     for (int side = 0; side < 2; ++side) {
       i128 lim = side ? (i128)std::numeric_limits<Rep>::max() : (i128)std::numeric_limits<Rep>::min();
@@ -731,10 +745,11 @@ struct DurMon {
         }
       }
     }
+    }  // den == 1
   }
   // whole seconds or coarser: parse floors arbitrary instants (not only multiples of the tick) toward the past
   void parse_floor(sup::Rng& r) {
-    if (P::den != 1) return;
+    if constexpr (P::den == 1) {
     i128 num = P::num;
     i128 lo = (i128)std::numeric_limits<Rep>::min() * num, hi = (i128)std::numeric_limits<Rep>::max() * num + (num - 1);
     if (lo < orc::I64MIN + 86400) lo = orc::I64MIN + 86400;
@@ -778,12 +793,21 @@ struct DurMon {
         }
       }
     }
+    } else {
+      (void)r;
+    }  // den == 1
   }
   void run(sup::Rng& r, long nrand) {
     i128 lo = std::numeric_limits<Rep>::min(), hi = std::numeric_limits<Rep>::max();
     i128 maxc = ((i128)INT64_MAX - 2) * P::den / P::num, minc = ((i128)INT64_MIN + 2) * P::den / P::num;
     if (hi > maxc) hi = maxc;
     if (lo < minc) lo = minc;
+    // std::chrono itself multiplies the count by the period's numerator before dividing: beyond that the cast is
+    // undefined whatever the library under test does
+    if (P::num > 1) {
+      if (hi > (i128)INT64_MAX / P::num - 1) hi = (i128)INT64_MAX / P::num - 1;
+      if (lo < (i128)INT64_MIN / P::num + 1) lo = (i128)INT64_MIN / P::num + 1;
+    }
     i128 per = P::den / P::num;
     if (per < 1) per = 1;
     cctz::time_zone zones[3] = {utc, cctz::fixed_time_zone(cctz::seconds(-12345)), cctz::fixed_time_zone(cctz::seconds(19800))};
@@ -860,12 +884,12 @@ int main(int argc, char** argv) {
     if (prop == "C07") total = thorough ? 30000000 : 2000000;
     if (prop == "C08") total = thorough ? 20000000 : 2000000;
     if (prop == "C09") total = thorough ? 30000000 : 3000000;
-    if (prop == "C18") total = thorough ? 16 * 4000000L : 16 * 320000L;
+    if (prop == "C18") total = thorough ? 19 * 3500000L : 19 * 280000L;
   }
   long ncases = (total + chunk - 1) / chunk;
   if (prop == "C18") {
     chunk = 20000;
-    ncases = (total / 16 + chunk - 1) / chunk * 16;  // 16 duration types, interleaved
+    ncases = (total / 19 + chunk - 1) / chunk * 19;  // 19 duration types, interleaved
   }
   return sup::supervise(ncases, opt, [&](long c, sup::Ctx& ctx) {
     sup::Rng rng(seed, static_cast<uint64_t>(c) + 31);
@@ -882,7 +906,7 @@ int main(int argc, char** argv) {
     } else {
       using namespace std::chrono;
       long n = chunk;
-      switch (c % 16) {
+      switch (c % 19) {
         case 0: DurMon<duration<int64_t, std::nano>>(ctx, "ns64").run(rng, n); break;
         case 1: DurMon<duration<int64_t, std::micro>>(ctx, "us64").run(rng, n); break;
         case 2: DurMon<duration<int64_t, std::milli>>(ctx, "ms64").run(rng, n); break;
@@ -898,11 +922,14 @@ int main(int argc, char** argv) {
         case 12: DurMon<duration<int64_t, std::ratio<60>>>(ctx, "min64").run(rng, n); break;
         case 13: DurMon<duration<int64_t, std::ratio<3600>>>(ctx, "h64").run(rng, n); break;
         case 14: DurMon<duration<int64_t, std::ratio<7>>>(ctx, "sec7x64").run(rng, n); break;
+        case 15: DurMon<duration<int64_t, std::ratio<3, 2>>>(ctx, "r3_2x64").run(rng, n); break;
+        case 16: DurMon<duration<int64_t, std::ratio<2, 3>>>(ctx, "r2_3x64").run(rng, n); break;
+        case 17: DurMon<duration<int64_t, std::ratio<1001, 30000>>>(ctx, "ntsc64").run(rng, n); break;
         default: DurMon<duration<int32_t>>(ctx, "s32").run(rng, n); break;
       }
       ctx.stat("C18.distinct_nontrivial", ctx.distinct_local.size());
       ctx.stat("C18.duration_type_runs");
-      if (c < 16) {
+      if (c < 19) {
         std::chrono::time_point<std::chrono::system_clock, std::chrono::milliseconds> tp{std::chrono::milliseconds(-100)};
         ctx.sample("C18", "format(\"%Y-%m-%d %H:%M:%E*S\", time_point<ms>(-100ms), utc) = " + cctz::format("%Y-%m-%d %H:%M:%E*S", tp, cctz::utc_time_zone()), 1);
       }
